@@ -89,7 +89,7 @@ def reserve_covers_full : Prop :=
 
 /-- F16 witness: output 1 (amount 5) is a wallet-DB record AND in the unconfirmed map. -/
 def f16Keeper : Keeper :=
-  { empty with confirmed := [⟨1, 1, 5, 1, 0, 0, false⟩], unconfirmed := [⟨1, 1, 5, 1, 0, 0, false⟩] }
+  { empty with confirmed := [⟨1, 1, 5, 1, 0, 0, false, 0⟩], unconfirmed := [⟨1, 1, 5, 1, 0, 0, false, 0⟩] }
 
 theorem reserve_distinct_full_refuted : ¬ reserve_distinct_full := by
   intro h
@@ -128,9 +128,9 @@ theorem reserve_distinct_partial (sortFn : List Utxo → List Utxo) (hperm : ∀
     exact ⟨hnd, hge, hch⟩
   · exact absurd (by rw [h]) (hne r)
 
-example : ((listed { empty with confirmed := [⟨1, 1, 5, 1, 0, 0, false⟩], unconfirmed := [⟨2, 1, 7, 1, 0, 0, false⟩] } true).map (·.id)).Nodup ∧
-    (reserve { empty with confirmed := [⟨1, 1, 5, 1, 0, 0, false⟩], unconfirmed := [⟨2, 1, 7, 1, 0, 0, false⟩] } 1 1 10 true 0 50).1
-      = .ok ⟨1, [⟨2, 1, 7, 1, 0, 0, false⟩, ⟨1, 1, 5, 1, 0, 0, false⟩], 2, 50⟩ := by decide
+example : ((listed { empty with confirmed := [⟨1, 1, 5, 1, 0, 0, false, 0⟩], unconfirmed := [⟨2, 1, 7, 1, 0, 0, false, 0⟩] } true).map (·.id)).Nodup ∧
+    (reserve { empty with confirmed := [⟨1, 1, 5, 1, 0, 0, false, 0⟩], unconfirmed := [⟨2, 1, 7, 1, 0, 0, false, 0⟩] } 1 1 10 true 0 50).1
+      = .ok ⟨1, [⟨2, 1, 7, 1, 0, 0, false, 0⟩, ⟨1, 1, 5, 1, 0, 0, false, 0⟩], 2, 50⟩ := by decide
 
 /-! ### 3. which outcome Reserve reports -/
 
@@ -179,7 +179,7 @@ def reserve_never_panics_full : Prop :=
 
 theorem reserve_never_panics_full_refuted : ¬ reserve_never_panics_full := by
   intro h
-  exact h { empty with confirmed := [⟨1, 1, 5, 1, 0, 0, false⟩] } 1 1 0 false 0 50 (by decide)
+  exact h { empty with confirmed := [⟨1, 1, 5, 1, 0, 0, false, 0⟩] } 1 1 0 false 0 50 (by decide)
 
 theorem reserve_never_panics_partial (sortFn : List Utxo → List Utxo) (k : Keeper)
     (acct asset amount : Nat) (useUnc : Bool) (vote exp : Nat) (hpos : 0 < amount) :
